@@ -619,8 +619,10 @@ PROPS["C01"] = dict(
                "generated paths are additionally checked on sample points with an independent f64 test; panics count as "
                "failures. The quantifier over points of a scanned line is discharged by proof; over lines between the "
                "scanned ones and over input paths by enumeration / sampling.",
-    level_note="Not proved: that lyon's sweep produces accepted output for all paths (the sweep is not modelled), nor the "
-               "lift from the scanned lines to the whole plane (slab argument, DESIGN.md section 4 stage 2). Termination "
+    level_note="Not proved: that lyon's sweep produces accepted output for all paths (the sweep is not modelled). The "
+               "lift from the scanned lines to the whole plane IS proved (C01_plane_sound, DESIGN.md 10.9) but costs seconds "
+               "per small case: a budget of 96 (quick) / 480 (thorough) fills with at most 6 triangles per run is decided at "
+               "every point of the plane, the others on all points of the scanned lines and on the sampled points. Termination "
                "and panic freedom of the real sweep are observed, not proved.",
     technique="Coq-verified scanline region comparator applied to the real output (translation validation) + exhaustive small lattice polygons",
     coq_targets=["theories/Props/C01.vo", "theories/Run/C01.vo"],
